@@ -39,6 +39,7 @@ func runC14(c *an.Ctx) {
 	if !ok {
 		return
 	}
+	checkHandlerListWriters(c, "C14.a")
 	// --- C14.a recover containment of the registered wrapper
 	{
 		nWrap := 0
